@@ -11,11 +11,24 @@ import (
 	"sync"
 
 	"verifharness/drivers/reg"
+	"verifharness/drivers/roots"
 )
 
 func die(err error) {
 	fmt.Fprintln(os.Stderr, "nev:", err)
 	os.Exit(2)
+}
+
+type famFn func(in, out string, seed int64, par int, tier string) error
+
+// families maps a family name to its runner; other files of this package add to it in init().
+var families = map[string]famFn{
+	"reg": func(in, out string, seed int64, par int, tier string) error {
+		return runFamily(in, out, seed, par, reg.Run, func(b reg.Behaviour) string { return b.Id })
+	},
+	"roots": func(in, out string, seed int64, par int, tier string) error {
+		return runFamily(in, out, seed, par, roots.Run, func(b roots.Behaviour) string { return b.Id })
+	},
 }
 
 func main() {
@@ -30,23 +43,14 @@ func main() {
 	par := fs.Int("par", 16, "parallel behaviours")
 	tier := fs.String("tier", "quick", "tier")
 	fs.Parse(os.Args[2:])
-	_ = tier
-	switch fam {
-	case "reg":
-		runReg(*in, *out, *seed, *par)
-	default:
-		if f, ok := families[fam]; ok {
-			if err := f(*in, *out, *seed, *par, *tier); err != nil {
-				die(err)
-			}
-			return
-		}
+	f, ok := families[fam]
+	if !ok {
 		die(fmt.Errorf("unknown family %q", fam))
 	}
+	if err := f(*in, *out, *seed, *par, *tier); err != nil {
+		die(err)
+	}
 }
-
-// families is extended by the other driver files of this package.
-var families = map[string]func(in, out string, seed int64, par int, tier string) error{}
 
 func readLines(path string, each func([]byte) error) error {
 	f, err := os.Open(path)
@@ -68,19 +72,21 @@ func readLines(path string, each func([]byte) error) error {
 	return sc.Err()
 }
 
-func runReg(in, out string, seed int64, par int) {
-	var bhs []reg.Behaviour
+// runFamily runs every behaviour of the input on a fresh world (in parallel)
+// and writes the recorded lines, in input order, as ndjson.
+func runFamily[B any, L any](in, out string, seed int64, par int, run func(B, int64) ([]L, error), id func(B) string) error {
+	var bhs []B
 	if err := readLines(in, func(b []byte) error {
-		var bh reg.Behaviour
+		var bh B
 		if err := json.Unmarshal(b, &bh); err != nil {
 			return err
 		}
 		bhs = append(bhs, bh)
 		return nil
 	}); err != nil {
-		die(err)
+		return err
 	}
-	results := make([][]reg.Line, len(bhs))
+	results := make([][]L, len(bhs))
 	errs := make([]error, len(bhs))
 	sem := make(chan struct{}, par)
 	var wg sync.WaitGroup
@@ -90,25 +96,31 @@ func runReg(in, out string, seed int64, par int) {
 		go func(i int) {
 			defer wg.Done()
 			defer func() { <-sem }()
-			results[i], errs[i] = reg.Run(bhs[i], seed)
+			defer func() {
+				if p := recover(); p != nil {
+					errs[i] = fmt.Errorf("driver panic: %v", p)
+				}
+			}()
+			results[i], errs[i] = run(bhs[i], seed)
 		}(i)
 	}
 	wg.Wait()
 	f, err := os.Create(out)
 	if err != nil {
-		die(err)
+		return err
 	}
 	defer f.Close()
 	bw := bufio.NewWriter(f)
+	enc := json.NewEncoder(bw)
 	for i := range bhs {
 		if errs[i] != nil {
-			die(fmt.Errorf("behaviour %s: %w", bhs[i].Id, errs[i]))
+			return fmt.Errorf("behaviour %s: %w", id(bhs[i]), errs[i])
 		}
-		b, err := reg.MarshalLines(results[i])
-		if err != nil {
-			die(err)
+		for _, l := range results[i] {
+			if err := enc.Encode(l); err != nil {
+				return err
+			}
 		}
-		bw.Write(b)
 	}
-	bw.Flush()
+	return bw.Flush()
 }
